@@ -90,10 +90,7 @@ theorem evalArrayItems_succ {n : Nat} (ih : AllSat T cfg g L n) (es : List Expr)
   · fuel_eq
     refine sat_bind (P := VOK L) ?_ fun v hv => ?_
     · split
-      · rename_i inner _ _
-        have := h _ List.mem_cons_self
-        cases this with
-        | filtered _ _ _ he _ => exact ih.eval _ he
+      · exact ih.eval _ (h _ List.mem_cons_self)
       · exact sat_xerr _ _
     · refine sat_bind (ih.evalArrayItems _ (fun e he => h e (List.mem_cons_of_mem _ he))) fun vs hvs => ?_
       exact sat_pure (forall_cons hv hvs)
@@ -897,7 +894,7 @@ theorem envOK_binds (binds : List (Bytes × Nat)) (fid : Nat) : ∀ {e : Env}, E
   | nil => intro e he; exact he
   | cons hd tl ih => intro e he; exact ih (envOK_set he _ (ValOK.closure _ _ _))
 
-theorem exprOK_default : ExprOK (default : Expr) := ExprOK.bool _ _
+theorem exprOK_default : ExprOK (default : Expr) := ExprAll.bool _ _
 
 theorem exprOK_getD {args : List Expr} (h : ∀ a ∈ args, ExprOK a) (j : Nat) : ExprOK (args.getD j default) := by
   rw [List.getD_eq_getElem?_getD]
@@ -1057,6 +1054,10 @@ theorem execNode_succ {n : Nat} (ih : AllSat T cfg g L n) (nd : Node) (hn : Node
     rw [execNode]
     refine sat_bind (ih.eval _ he) fun v hv => ?_
     exact sat_modifyCur fun f hf => ⟨envOK_set hf.1 _ (ValOK.boxed _ _ hv.1 hv.2), hf.2.1, hf.2.2⟩
+  | tagSpaceless body hb =>
+    rw [execNode]
+    refine sat_bind (sat_buffered (ih.execNodes _ hb)) fun out hout => ?_
+    exact sat_write (hout.thin L _ (spaceless_thins out).1 (spaceless_thins out).2)
   | tagSsi content ti hc =>
     rw [execNode.eq_def]
     simp only []
